@@ -159,7 +159,7 @@ Proof.
 Qed.
 Lemma objdsp_reg r d y : y <> alarm_sig -> objdsp r d y = d y.
 Proof.
-  intro H. unfold objdsp. destruct (oflow r) as [|[| | | | |] f]; try reflexivity.
+  intro H. unfold objdsp. destruct (oflow r) as [|[| | | | | |] f]; try reflexivity.
   unfold upd. destruct (Z.eqb_spec y alarm_sig); [contradiction|reflexivity].
 Qed.
 Lemma cb_alarm c r d : (rearm_now c r = true /\ cb_dsp c r d alarm_sig = DHandler /\ alarm_set (cb_reg c r) = true) \/
@@ -171,7 +171,7 @@ Qed.
 Lemma objstep_alarm r r' d : objstep r = Some r' ->
   (objdsp r d alarm_sig = DHandler /\ alarm_set r' = true) \/ (objdsp r d = d /\ alarm_set r' = alarm_set r).
 Proof.
-  unfold objstep, objdsp. destruct (oflow r) as [|[| | | | |] f]; try discriminate; intro H; inversion H; subst; clear H; simpl; auto.
+  unfold objstep, objdsp. destruct (oflow r) as [|[| | | | | |] f]; try discriminate; intro H; inversion H; subst; clear H; simpl; auto.
   all: try (destruct (live r); auto).
   all: try (left; split; [|reflexivity]; unfold upd; rewrite Z.eqb_refl; reflexivity).
 Qed.
@@ -224,12 +224,13 @@ Lemma objstep_inv r r' : inst r = Some O -> Forall (fun b => b <> O) (live r) /\
   objstep r = Some r' ->
   inst r' = Some O /\ (Forall (fun b => b <> O) (live r') /\ nxt r' <> O) /\ fault r' = false.
 Proof.
-  intros Hi [Hl Hn] Hf H. unfold objstep in H. destruct (oflow r) as [|[| | | | |] fl]; try discriminate; inversion H; subst; clear H; simpl.
+  intros Hi [Hl Hn] Hf H. unfold objstep in H. destruct (oflow r) as [|[| | | | | |] fl]; try discriminate; inversion H; subst; clear H; simpl.
   - repeat split; auto.
   - destruct (live r) as [|b l] eqn:Hlv; simpl.
     + repeat split; auto.
     + inversion Hl; subst. rewrite Hi, reset_other by assumption. repeat split; auto.
   - rewrite Hi, reset_other by assumption. repeat split; auto.
+  - repeat split; auto.
   - repeat split; auto.
   - repeat split; auto.
 Qed.
